@@ -241,7 +241,8 @@ class Facts:
                     self._globals[g['q']] = g
             for r in u['records']:
                 r['_unit'] = rel
-                self._records.setdefault(r['q'], r)
+                key = r['q'] if not r['q'].startswith('(') else '%s@%s:%s' % (r['q'], r.get('file'), r.get('line'))
+                self._records.setdefault(key, r)
             for e in u['enums']:
                 self._enums.setdefault(e['q'], e)
             for m in u['macros']:
